@@ -170,6 +170,41 @@ func walletPubkeys(w *WCfg) ([][]byte, error) {
 	return pubs, nil
 }
 
+// walletPrivkeys: the 32-byte secrets, from the real wallet's own export (-dump '*': one WIF string per key, same order
+// as -l). Used only by the signer tie of -rfc6979 runs.
+var privCache sync.Map
+
+func walletPrivkeys(w *WCfg) ([][]byte, error) {
+	key := fmt.Sprintf("%d|%v|%d|%s|%s|%s", w.Type, w.Testnet, w.Keycnt, w.Seed, w.Pass, w.HdPath)
+	if v, ok := privCache.Load(key); ok {
+		return v.([][]byte), nil
+	}
+	dir, err := os.MkdirTemp("", "vc13k")
+	if err != nil {
+		return nil, err
+	}
+	defer os.RemoveAll(dir)
+	w2 := *w
+	w2.Atype = "p2kh"
+	os.WriteFile(filepath.Join(dir, "wallet.cfg"), []byte(w2.cfgText(true)), 0600)
+	os.WriteFile(filepath.Join(dir, ".secret"), []byte(w.Pass), 0600)
+	res := runWallet(dir, []string{"-dump", "*", "-q"})
+	var privs [][]byte
+	for _, l := range strings.Split(res.Stdout, "\n") {
+		f := strings.Fields(l)
+		if len(f) >= 2 && len(f[0]) >= 50 && len(f[0]) <= 53 {
+			if pa, e := btc.DecodePrivateAddr(f[0]); e == nil && pa != nil && len(pa.Key) == 32 {
+				privs = append(privs, append([]byte{}, pa.Key...))
+			}
+		}
+	}
+	if len(privs) != w.Keycnt {
+		return nil, fmt.Errorf("wallet -dump listed %d keys, expected %d (exit %d)\n%s\n%s", len(privs), w.Keycnt, res.Exit, res.Stdout, res.Stderr)
+	}
+	privCache.Store(key, privs)
+	return privs, nil
+}
+
 // ---------------------------------------------------------------- scripts
 func h160(b []byte) []byte {
 	var o [20]byte
